@@ -377,9 +377,9 @@ func (s *Sorts) zero(t types.Type) string {
 	case *types.Pointer, *types.Map, *types.Chan, *types.Signature:
 		return bvConst(0, 64)
 	case *types.Slice:
-		return "g_nilslice"
+		return "(g_mkslice (_ bv0 64) (_ bv0 64) (_ bv0 64) (_ bv0 64))"
 	case *types.Interface:
-		return "g_niliface"
+		return "(g_mkiface (_ bv0 32) (_ bv0 64))"
 	case *types.Array:
 		return "((as const " + s.sortOf(t) + ") " + s.zero(u.Elem()) + ")"
 	case *types.Struct:
